@@ -25,6 +25,19 @@ partial def loopStateless (h : IO.FS.Stream) (f : String → Option (String × O
     if st.mismatches < 20 then IO.println s!"MISMATCH {n} | {l} | model: {out}"
     loopStateless h f ({ st with lines := st.lines + 1, mismatches := st.mismatches + 1 }.hit br) (n + 1)
 
+partial def loopLedger (h : IO.FS.Stream) (st : LedgerDrv.St) (n : Nat) : IO LedgerDrv.St := do
+  let line ← h.getLine
+  if line.isEmpty then return st
+  let l := line.trimAscii.toString
+  if l.isEmpty || l.startsWith "#" then loopLedger h st (n + 1) else
+  let (st', msg) := LedgerDrv.step st n l
+  match msg with
+  | some m =>
+    if st'.stats.mismatches + st'.stats.bad < 20 then IO.println (if m.startsWith "MISMATCH" then m else s!"BADLINE {n} | {l} | {m}")
+    let st' := if m.startsWith "MISMATCH" then st' else { st' with stats := { st'.stats with bad := st'.stats.bad + 1 } }
+    loopLedger h st' (n + 1)
+  | none => loopLedger h st' (n + 1)
+
 def printSummary (st : Stats) : IO Unit := do
   let br := st.branches.map fun (k, n) => s!"{k}={n}"
   IO.println s!"SUMMARY lines={st.lines} mismatches={st.mismatches} bad={st.bad} branches={" ".intercalate br}"
@@ -38,5 +51,10 @@ def main (args : List String) : IO UInt32 := do
     printSummary st
     return (if st.mismatches == 0 && st.bad == 0 then 0 else 1)
   | none =>
+    if sec == "ledger" then
+      let st ← loopLedger stdin {} 1
+      IO.println s!"SKIPPED {st.skipped}"
+      printSummary st.stats
+      return (if st.stats.mismatches == 0 && st.stats.bad == 0 then 0 else 1)
     IO.eprintln s!"unknown section {sec}"
     return 2
